@@ -688,7 +688,7 @@ PROPERTIES["C03"] = {
     "outside": ["RQB/FPBA1/FPBA2 end to end beyond the bounded runs of mode=bsolver (1-D sharp functions, bundle::max_size 2, max_evals 10..20: most optimality obligations come back `unknown` from nlsat and are counted inconclusive). The property is decomposed instead: C03_bundle checks the certificate of the curve search's stopping tests about the CENTRE, C03_outer checks that the outer loops return a truthful state at least as good as that centre for every behaviour of the curve search (max_evals 10..14); the factor (1+|x-x*|) of the bound is taken at the centre, not at the returned point (they differ only for FPBA)", "'ellipsoid always converges within 20000 evaluations' beyond the bounded necessary condition", "bundles with more than 2 points (inner QP)"],
     "units": [
         {"engine": "sre", "harness": "C03_bundle", "sources": ["C03_bundle.cpp"],
-         "quick": ["mode=bundle;d=1;ops=1;pat=1", "mode=bundle;d=1;ops=1;pat=0", "mode=bundle;d=1;ops=2;pat=2;q=0", "mode=bundle;d=1;ops=2;pat=1;q=0", "mode=bundle;d=2;ops=1;pat=1;q=0",
+         "quick": ["mode=bundle;d=1;ops=1;pat=1", "mode=bundle;d=1;ops=1;pat=0", "mode=bundle;d=1;ops=2;pat=2;q=0", "mode=bundle;d=1;ops=2;pat=1;q=0", "mode=bundle;d=2;ops=1;pat=1;q=0", "mode=bundle;d=2;ops=1;pat=0;q=0",
                    "mode=ellipsoid;d=1", "mode=ellipsoid;d=1;evals=14", "mode=ellipsoid;d=1;zero=1", "mode=ellipsoid;d=1;evals=14;zero=1", "mode=bsolver;solver=fpba1;d=1;evals=10"],
          "thorough": ["mode=ellipsoid;d=1;zero=1", "mode=ellipsoid;d=1;evals=14;zero=1", "mode=ellipsoid;d=2;zero=1"] + ["mode=bundle;d=1;ops=%d;pat=%d;q=%d" % (o, p, q) for o in (1, 2, 3) for p in range(1 << o) for q in (0, 1)] + ["mode=bundle;d=2;ops=%d;pat=%d;q=0" % (o, p) for o in (1, 2) for p in range(1 << o)] +
                      ["mode=ellipsoid;d=1", "mode=ellipsoid;d=1;evals=14", "mode=ellipsoid;d=1;evals=20", "mode=ellipsoid;d=2"] +
